@@ -86,3 +86,33 @@ func TestOne(t *testing.T) {
 
 func TestWorker(t *testing.T) { RunWorker(t) }
 func TestReplay(t *testing.T) { RunReplay(t) }
+
+func TestEnumC18(t *testing.T) {
+	if os.Getenv("SIM_ENUM") == "" {
+		t.Skip()
+	}
+	job := &Job{Property: "C18", Workers: 1, Worker: 0}
+	out := &WorkerOut{Other: map[string]int{}, Stats: map[string]int{}, Probes: map[string]int{}}
+	found := map[string]*Found{}
+	start := time.Now()
+	ex := enumerateC18(t, job, out, found)
+	fmt.Println(ex, out.Runs, time.Since(start))
+	for k, f := range found {
+		fmt.Println("FOUND", k, f.Count, f.Detail)
+	}
+	for k, v := range out.Other {
+		fmt.Println("OTHER", k, v)
+	}
+	for _, s := range out.Sanity {
+		fmt.Println("SANITY", s)
+	}
+	for _, s := range out.Panics {
+		fmt.Println("PANIC", s)
+	}
+	for k, f := range found {
+		_ = k
+		_ = f
+	}
+	b, _ := json.Marshal(out.Probes)
+	fmt.Println(string(b))
+}
